@@ -1859,13 +1859,14 @@ class NodeRequire:
                 if name.startswith("_"):
                     continue  # skip private module symbols
                 environment.put(name, moduleEnv.get(name))
-        elif self.symbols:
-            for name in moduleEnv.getLocalSymbols():
+        elif self.symbols is not None:
+            available = moduleEnv.getLocalSymbols()
+            for name, alias in self.symbols:
                 if name.startswith("_"):
                     continue  # skip private module symbols
-                if name not in self.symbols:
+                if name not in available:
                     continue
-                environment.put(self.symbols[name], moduleEnv.get(name))
+                environment.put(alias, moduleEnv.get(name))
         else:
             obj = ValueObject()
             obj.isModule = True
